@@ -654,7 +654,9 @@ class Frame:
         else:
             names = [ast.unparse(h.type)]
         for n in names:
-            if n in ('Exception', 'BaseException') or n == kind:
+            if n == 'BaseException' or n == kind:
+                return True
+            if n == 'Exception' and kind not in ('KeyboardInterrupt', 'SystemExit', 'GeneratorExit'):
                 return True
         return False
 
